@@ -129,7 +129,24 @@ def string_series(dtype, vals, enum):
     return pl.Series("f", vals, dtype=pl.Utf8)
 
 
-def near_edge(v, edges, tol=1e-6):
+def near_edge(v, edges, tol=1e-6, eq=False):
+    """eq=True: a value EQUAL to a model edge counts as well - needed for 'uniform', whose edges the code computes in
+    floating point (min + range*k/m may land an ulp beside the exact edge the model uses)"""
     if v is None or not math.isfinite(v):
         return False
-    return any(e is not None and math.isfinite(e) and v != e and abs(v - e) <= tol * max(1.0, abs(e)) for e in edges)
+    return any(e is not None and math.isfinite(e) and (eq or v != e) and abs(v - e) <= tol * max(1.0, abs(e)) for e in edges)
+
+
+def uniform_edge_tie(method, vals, model_rows):
+    """True when a 'uniform' table cannot be compared row by row: some value sits on a computed interior edge"""
+    if method != "uniform":
+        return False
+    edges = set()
+    for r in model_rows:
+        if r.get("edges"):
+            edges.update(cell_val(e) for e in r["edges"])
+    fin = [v for v in vals if v is not None and isinstance(v, (int, float)) and math.isfinite(v)]
+    if not fin:
+        return False
+    interior = {e for e in edges if e is not None and math.isfinite(e) and e not in (min(fin), max(fin))}
+    return any(near_edge(v, interior, eq=True) for v in fin)
